@@ -196,6 +196,8 @@ int64_t cmb_priorityqueue_get(struct cmb_priorityqueue *pqp, void **objectloc)
 
     cmb_logger_info(stdout, "Gets an object from %s, length now %" PRIu64,
                     rbp->name, pqp->queue.heap_count);
+    /* Queueing again within this call keeps the place earned by waiting since now */
+    const double since = cmb_time();
     while (true) {
         cmb_assert_debug(pqp->queue.heap_count <= pqp->capacity);
         if (pqp->queue.heap_count > 0u) {
@@ -217,9 +219,9 @@ int64_t cmb_priorityqueue_get(struct cmb_priorityqueue *pqp, void **objectloc)
         /* Wait at the front door until some more becomes available  */
         cmb_assert_debug(pqp->queue.heap_count == 0u);
         cmb_logger_info(stdout, "Waiting for an object");
-        const int64_t sig = cmb_resourceguard_wait(&(pqp->front_guard),
-                                                   has_content,
-                                                   NULL);
+        const int64_t sig = cmb_resourceguard_wait_since(&(pqp->front_guard),
+                                                         has_content,
+                                                         NULL, since);
         if (sig == CMB_PROCESS_SUCCESS) {
             cmb_logger_info(stdout,"Trying again");
         }
@@ -246,6 +248,8 @@ int64_t cmb_priorityqueue_put(struct cmb_priorityqueue *pqp,
     cmb_assert_release(rbp->cookie == CMI_INITIALIZED);
     cmb_logger_info(stdout, "Puts object %p priority %" PRIi64 " into %s, length %" PRIu64,
                     object, priority, rbp->name, pqp->queue.heap_count);
+    /* Queueing again within this call keeps the place earned by waiting since now */
+    const double since = cmb_time();
     while (true) {
         cmb_assert_debug(pqp->queue.heap_count <= pqp->capacity);
         if (pqp->queue.heap_count < pqp->capacity) {
@@ -268,9 +272,9 @@ int64_t cmb_priorityqueue_put(struct cmb_priorityqueue *pqp,
         /* Wait at the back door until some more becomes available  */
         cmb_assert_debug(pqp->queue.heap_count == pqp->capacity);
         cmb_logger_info(stdout, "Waiting for space");
-        const int64_t sig = cmb_resourceguard_wait(&(pqp->rear_guard),
-                                                   has_space,
-                                                   NULL);
+        const int64_t sig = cmb_resourceguard_wait_since(&(pqp->rear_guard),
+                                                         has_space,
+                                                         NULL, since);
         if (sig == CMB_PROCESS_SUCCESS) {
             cmb_logger_info(stdout,"Trying again");
         }
